@@ -640,8 +640,7 @@ func (p *parser) parseSignal() (*Signal, error) {
 	}
 
 	t = p.scan()
-	syntKind := getPunctKind(t.value)
-	if t.kind != tokenPunct || (syntKind != punctPlus && syntKind != punctMinus) {
+	if !t.isPunct(punctPlus) && !t.isPunct(punctMinus) {
 		return nil, p.errorf(`expected "+" or "-"`)
 	}
 	if t.value == "+" {
@@ -998,8 +997,7 @@ func (p *parser) parseSignalType() (*SignalType, *SignalTypeRef, error) {
 		}
 
 		t = p.scan()
-		syntKind := getPunctKind(t.value)
-		if t.kind != tokenPunct || (syntKind != punctPlus && syntKind != punctMinus) {
+		if !t.isPunct(punctPlus) && !t.isPunct(punctMinus) {
 			return nil, nil, p.errorf(`expected "+" or "-"`)
 		}
 		if t.value == "+" {
